@@ -271,9 +271,50 @@ class C13(spec.Spec):
         super().__init__(tier, params)
         self.alphabet = alphabets.doc_history_alphabet(tier)
 
+    SER_REUSE = [("json", {}), ("json", {"indent": 2, "sort_keys": True}), ("xml", {}), ("xml", {"force_types": True}),
+                 ("provn", {}), ("rdf", {})]
+
+    def serializer_reuse(self, hist, out):
+        """one serializer object used for two exports: both texts are the text a fresh export gives (nothing
+        an export learns may stay in the serializer object)"""
+        import io
+        import prov.serializers
+        doc = self.fresh_doc(hist)
+        base = full_obs(doc)
+        hh = ("seq", list(hist) if hist and hist[0] == "rich" else self.ops(hist), ["serializer-object-twice"])
+        for fmt, kw in self.SER_REUSE:
+            out.evaluations += 1
+            try:
+                if fmt == "rdf":
+                    _reset_bnodes()
+                fresh = doc.serialize(format=fmt, **kw)
+                ser = prov.serializers.get(fmt)(doc)
+                texts = []
+                for i in range(2):
+                    if fmt == "rdf":
+                        _reset_bnodes()
+                    buf = io.BytesIO()
+                    ser.serialize(buf, **kw)
+                    texts.append(buf.getvalue().decode("utf-8"))
+                    out.transitions += 1
+            except Exception as e:
+                out.outcomes["serializer-object:%s:raised" % fmt] += 1
+                continue
+            if full_obs(doc) != base:
+                out.violation("export-mutates-document", "%s:serializer-object" % fmt, {}, hh)
+                return
+            same = (lambda a, b: a == b or _rdf_isomorphic(a, b)) if fmt == "rdf" else (lambda a, b: a == b)
+            if not (same(texts[0], fresh) and same(texts[1], fresh)):
+                out.violation("serializer-object-reused-gives-other-text", "%s:%s" % (fmt, "first" if not same(texts[0], fresh) else "second"),
+                              {"options": kw, "fresh": fresh[:600], "first": texts[0][:600], "second": texts[1][:600]}, hh)
+                return
+            out.outcomes["serializer-object:%s:same" % fmt] += 1
+            out.nontrivial += 1
+
     def state_case(self, item, out):
         hist, n = item
         names = [e[0] for e in EXPORTERS]
+        self.serializer_reuse(hist, out)
         for k in range(1, n + 1):
             for seq in itertools.product(names, repeat=k):
                 self.run_seq(hist, seq, out)
@@ -348,6 +389,7 @@ class C13(spec.Spec):
     def rich_case(self, item, out):
         name, n = item
         names = [e[0] for e in EXPORTERS]
+        self.serializer_reuse(("rich", name), out)
         for k in range(1, n + 1):
             for seq in itertools.product(names, repeat=k):
                 self.run_seq(("rich", name), seq, out)
@@ -489,7 +531,9 @@ def replay(item, tier, seed):
     sp = make_spec(tier, {})
     out = explore.Out()
     h = item.get("history", [])
-    if h and h[0] == "seq" and h[2] and "@" in str(h[2][0]):
+    if h and h[0] == "seq" and h[2] == ["serializer-object-twice"]:
+        sp.serializer_reuse(tuple(h[1]) if h[1] and h[1][0] == "rich" else tuple(ast.literal_eval(x) for x in h[1]), out)
+    elif h and h[0] == "seq" and h[2] and "@" in str(h[2][0]):
         sp.interleaved_case(tuple(ast.literal_eval(x) for x in h[1]), out)
     elif h and h[0] == "seq":
         if h[1] and h[1][0] == "rich":
